@@ -669,3 +669,64 @@ def rule_sign_carry(ctx: Ctx, rels: List[str]) -> None:
                              f"different, orthogonal state", func=fn.name, construct=f"{fn.name}: tableau rebuilt from {sorted(owners)} without signs")
     if n == 0:
         raise AnalysisError("sign.carry: no tableau construction found in " + ", ".join(rels))
+
+
+# --------------------------------------------------------------------------- own.fresh-storage
+
+_FRESH_FUNCS = {"np.copy", "np.array", "np.zeros", "np.ones", "np.eye", "np.hstack", "np.vstack", "np.block", "np.concatenate", "np.insert",
+                "np.delete", "np.zeros_like", "np.ones_like", "np.identity", "np.full", "np.append", "np.tile", "np.repeat", "copy.deepcopy", "copy.copy",
+                "np.rint", "np.mod", "np.remainder", "np.logical_xor", "np.bitwise_xor", "np.roll", "block_diag"}
+_STORAGE = ("_table", "_phase", "_iphase")
+
+
+def _fresh_array(e: ast.AST) -> bool:
+    """does `e` certainly evaluate to a newly allocated array (not a view / alias of something the caller still holds)?"""
+    if isinstance(e, ast.BinOp) or isinstance(e, ast.UnaryOp):
+        return True
+    if isinstance(e, ast.Call):
+        cn = call_name(e) or ""
+        if cn in _FRESH_FUNCS:
+            return True
+        if isinstance(e.func, ast.Attribute) and e.func.attr == "astype":
+            cp = get_kw(e, "copy")
+            return not (isinstance(cp, ast.Constant) and cp.value is False)
+        if isinstance(e.func, ast.Attribute) and e.func.attr in ("copy", "flatten", "tolist"):
+            return True
+    return False
+
+
+def rule_fresh_storage(ctx: Ctx) -> None:
+    """own.fresh-storage: the arrays a tableau object stores (table, sign vector, i-phase vector) are newly allocated at every
+    assignment in the tableau classes — `np.copy(x)`, `x.astype(int)`, a constructor or an arithmetic result — and each field gets
+    its own array.  `np.asarray(x, dtype=int)` returns x itself when x is already an int array, a bare name or a slice is an
+    alias/view, and `self._phase = self._iphase = ...` makes two fields one array: in all three cases an in-place row operation on
+    one tableau (row_sum, tab_row_swap) silently edits another array the state depends on."""
+    repo = ctx.repo
+    n = 0
+    for rel, cname in ((TABLEAU, "StabilizerTableau"), (CTABLEAU, "CliffordTableau")):
+        m = repo.module(rel)
+        ci = repo.cls(cname, rel)
+        for name, fn in ci.methods().items():
+            for a in [x for x in ast.walk(fn) if isinstance(x, ast.Assign)]:
+                fields = [t for t in a.targets if isinstance(t, ast.Attribute) and norm(t.value) == "self" and t.attr in _STORAGE]
+                if not fields:
+                    continue
+                n += 1
+                ctx.touch(m, fn)
+                if len(fields) > 1:
+                    ctx.fail("own.fresh-storage", m, a,
+                             f"{cname}.{name} binds {[norm(t) for t in fields]} to one and the same array (`{short(a, 70)}`): an in-place update of "
+                             f"the one (row_sum writes the i-phase entries) overwrites the other", func=f"{cname}.{name}",
+                             construct=f"{cname}.{name}: storage fields share one array")
+                    continue
+                if _fresh_array(a.value):
+                    ctx.ok("own.fresh-storage", m, a, what=f"{cname}.{name}: {fields[0].attr} is a newly allocated array")
+                else:
+                    ctx.fail("own.fresh-storage", m, a,
+                             f"{cname}.{name} stores `{short(a.value, 60)}` as its `{fields[0].attr}` without copying: "
+                             + ("np.asarray returns its argument itself when the dtype already matches, so " if "asarray" in norm(a.value) else "")
+                             + "the new tableau shares the array with the caller's object (CliffordTableau.to_stabilizer passes a view of its own sign "
+                             "vector), and a later in-place row operation on one silently changes the signs of the other",
+                             func=f"{cname}.{name}", construct=f"{cname}.{name}: {fields[0].attr} aliases its argument")
+    if n < 10:
+        raise AnalysisError("own.fresh-storage: too few storage assignments found in the tableau classes")
